@@ -73,6 +73,30 @@ func extraMutants(c *chain.Chain, s *chain.Step, rng *rand.Rand) []chain.Mutant 
 			}
 			return true
 		})
+		add("attester_slashing.data:same-source-lower-target(re-signed)", "attester_slashing.not_slashable_data", func(b *chain.SignedBlock, body chain.BodyRef) bool {
+			// neither a double vote (targets differ) nor a surround vote (sources equal): validly signed, not slashable
+			as := &(*body.AttesterSlashings)[i]
+			if as.Attestation1.Data.Target.Epoch == 0 {
+				return false
+			}
+			as.Attestation2.Data = as.Attestation1.Data
+			as.Attestation2.Data.Target.Epoch--
+			as.Attestation2.Signature = c.SignIndexed(s.PreBlock, &as.Attestation2.Data, as.Attestation2.AttestingIndices)
+			return true
+		})
+		add("attester_slashing.data:same-target-higher-source-swapped(re-signed)", "attester_slashing.not_slashable_data", func(b *chain.SignedBlock, body chain.BodyRef) bool {
+			// attestation_2 surrounds attestation_1 (the order the spec does NOT accept) with different targets
+			as := &(*body.AttesterSlashings)[i]
+			d := as.Attestation1.Data
+			if d.Source.Epoch == 0 {
+				return false
+			}
+			as.Attestation2.Data = d
+			as.Attestation2.Data.Source.Epoch--
+			as.Attestation2.Data.Target.Epoch++
+			as.Attestation2.Signature = c.SignIndexed(s.PreBlock, &as.Attestation2.Data, as.Attestation2.AttestingIndices)
+			return true
+		})
 		add("attester_slashing.indices:marker", "attester_slashing.attestation_1_invalid", func(b *chain.SignedBlock, body chain.BodyRef) bool {
 			// the value ZigZagJoin uses as its end-of-list marker, as an (out of range) attesting index
 			a := &(*body.AttesterSlashings)[i].Attestation1
